@@ -30,7 +30,10 @@ Templates(x) ==
    <<97, 46, 98, 32, 61, 32>> \o x \o <<10, 97, 46, 99, 32, 61, 32>> \o x \o <<10>>,
    <<34, 97, 32, 98, 34, 32, 61, 32>> \o x \o <<10, 34, 97, 32, 98, 50, 34, 46, 99, 32, 61, 32>> \o x \o <<10>>}
 \* every date-time spelling the macro has rules for: "T", "t" or a space, "Z" or "z", fractions (no "+" offsets)
-MacroSpellings(v) == IF v.k = "dt" THEN DatetimeSpellings(v) ELSE {ValueText(v)}
+\* numbers: also with an explicit "+" (a separate Rust token, with macro rules of its own in every position)
+MacroSpellings(v) == IF v.k = "dt" THEN DatetimeSpellings(v)
+                     ELSE IF v.k \in {"i", "f"} /\ ~v.neg THEN {ValueText(v), <<43>> \o ValueText(v)}
+                     ELSE {ValueText(v)}
 VARIABLES lvl, text
 Init == lvl = 0 /\ text = <<>>
 Next == lvl = 0 /\ lvl' = 1 /\ \E v \in Vals : \E x \in MacroSpellings(v) : text' \in Templates(x)
